@@ -49,6 +49,9 @@ def aux_framer(name, tag, guard=True, frames=2):
     return FramerSpec(name, "aux", tag + "0", fs)
 
 
+QUICK_FORESTS = {3: [[-1, 0, 1], [-1, 0, 0], [-1, -1, 1]], 4: [[-1, 0, 1, 1], [-1, 0, 0, -1]]}
+
+
 def all_forests(n):
     """every parent array with parent[i] in [-1, i-1]"""
     out = [[-1]]
@@ -58,7 +61,7 @@ def all_forests(n):
 
 
 def family(sym, n, ngo=1, auxes=(), guards=True, done_need=False, aux_frames=2, far_any=True,
-           parent=None, first=None, near_in_cur=False, host_in_cur=False):
+           parent=None, first=None, near_in_cur=False, host_in_cur=False, force_same=False):
     """Draw one program.  auxes: sequence of ('plain'|'cond') kinds; each gets its own aux framer
     a<k> attached to a symbolically chosen frame; with two plain auxes a selector may attach the
     SAME original to two frames.  Returns (prog, info)."""
@@ -78,7 +81,7 @@ def family(sym, n, ngo=1, auxes=(), guards=True, done_need=False, aux_frames=2, 
     for k, kind in enumerate(auxes):
         name = "a%d" % k
         if kind == "plain" and k > 0 and auxes[k - 1] == "plain":
-            same = sym.flag("sameorig%d" % k)
+            same = True if force_same else sym.flag("sameorig%d" % k)
         host = cur[sym.choice("host%d" % k, len(cur))] if host_in_cur else sym.choice("host%d" % k, n)
         if same:
             name = "a%d" % (k - 1)
@@ -99,7 +102,7 @@ def family(sym, n, ngo=1, auxes=(), guards=True, done_need=False, aux_frames=2, 
         far = sym.choice("far%d" % j, n)
         cond = [("x%d" % j, ">=", 1)]
         if done_need and info["aux"]:
-            which = sym.choice("dn%d" % j, 4)
+            which = done_need[sym.choice("dn%d" % j, len(done_need))] if isinstance(done_need, (list, tuple)) else sym.choice("dn%d" % j, 4)
             plain = [a for a in info["aux"] if a[1] == "plain"]
             if which == 1:
                 cond.append(("@done", "any", "f%d" % near))
@@ -179,10 +182,11 @@ def run(sym, prog, controls, lo=0, hi=1, dt=1, fixed=None, value_range=None, sta
         world.now = stamp
         del LOG[:]
         del world.log[:]
+        del world.events[:]
         rstatus = main.runner.send(control)
         world.send(world.framers["m"], control)
         if world.assumed_away:
             sym.assume(False)
-        out.append((control, list(LOG), list(world.log), observe_real(house, main, prog), observe_ref(world), dict(env)))
+        out.append((control, list(LOG), list(world.log), observe_real(house, main, prog), observe_ref(world), dict(env, __events__=list(world.events))))
         stamp = stamp + dt
     return text, out
